@@ -1,6 +1,6 @@
 (* C09 -- the model card is an ordered section tree with stable addressing.
    Only statements, each closed by `exact`.  Model: coq/card/{CardStr,Path,Tree,Ops,Spec}.v
-   (faithful to skops/card/_model_card.py after the D13 fix); proofs: coq/card/*Facts.v. *)
+   (faithful to skops/card/_model_card.py after the D13 and C09-F1 fixes); proofs: coq/card/*Facts.v. *)
 From Skv Require Import PyStr Json CardStr Path Tree Ops Render Spec
                         PathFacts TreeFacts OpsFacts BuildersFacts.
 Open Scope N_scope.
@@ -90,7 +90,8 @@ Theorem C09_select_last : forall ops p, p <> [] ->
 Proof. exact select_last. Qed.
 Print Assumptions C09_select_last.
 
-Theorem C09_select_after : forall ops key, key <> [] -> last (split_names key) [] <> [] ->
+(* through Card.select, for EVERY key without an empty name (all other keys raise KeyError: C09_errors_pure_select) *)
+Theorem C09_select_after : forall ops key, ~ In [] (split_names key) ->
   match snd (run_op (OSelect key) (run_card ops empty_card)) with
   | Selected x => val (split_names key) (rev (history ops [])) [] = Some (shallow x)
   | Failed e => e = EKey /\ val (split_names key) (rev (history ops [])) [] = None
@@ -111,32 +112,36 @@ Proof. exact reachable_wf. Qed.
 Print Assumptions C09_reachable_wf.
 
 (* ---- chained select ------------------------------------------------------ *)
-(* FULL STATEMENT (refuted, finding C09-F1):
-     forall p q d, ends_with_backslash p = false ->
-       card_select (p ++ "/" ++ q) d = (card_select p d >>= section_select q).
-   Card.select checks only the whole key and the last name for emptiness, Section.select every name. *)
-Theorem C09_chain_refuted :
-  exists d p q, ends_with_backslash p = false /\
-    card_select (p ++ slash :: q) d <>
-    match card_select p d with Ok x => section_select q x | Raise e => Raise e end.
-Proof. exact chain_refuted. Qed.
-Print Assumptions C09_chain_refuted.
-
-Theorem C09_select_empty_middle_refuted :
-  exists x, card_select (of_ascii "a//b") card_a__b = Ok x /\ In [] (split_names (of_ascii "a//b")).
-Proof. exact select_empty_middle_refuted. Qed.
-Print Assumptions C09_select_empty_middle_refuted.
-
-(* proved part: guard = no empty name in q, last name of p non-empty (p not ending in a backslash,
-   which would escape the joining slash) *)
-Theorem C09_chain_partial : forall p q d,
+(* FULL STATEMENT (finding C09-F1 repaired: Card.select now rejects an empty name anywhere, as Section.select does):
+   select(p + "/" + q) = select(p).select(q) for every card, every q and every p that does not end in a backslash
+   (a trailing backslash would escape the joining slash: path syntax, see C09_chain_backslash_example). *)
+Theorem C09_chain : forall p q d,
   ends_with_backslash p = false ->
-  last (split_names p) [] <> [] ->
-  forallb nonempty (split_names q) = true ->
   card_select (p ++ slash :: q) d =
   match card_select p d with Ok x => section_select q x | Raise e => Raise e end.
-Proof. exact chain_partial. Qed.
-Print Assumptions C09_chain_partial.
+Proof. exact chain_full. Qed.
+Print Assumptions C09_chain.
+
+Theorem C09_chain_backslash_example :
+  let d := add_single (of_ascii "a\/b") (text_section (of_ascii "a\/b") [120] false) [] in
+  exists x, card_select (of_ascii "a\" ++ slash :: of_ascii "b") d = Ok x /\ card_select (of_ascii "a\") d = Raise EKey.
+Proof. exact chain_backslash_example. Qed.
+Print Assumptions C09_chain_backslash_example.
+
+(* the former witness of C09-F1, card_a__b = add "a//b" on the empty card = {a: {"": {b}}}: the section exists,
+   but select / delete (string and list form) / chained select of the path with the empty name all raise KeyError;
+   it goes away with its parent *)
+Theorem C09_select_empty_middle_fixed :
+  lookup (split_names (of_ascii "a//b")) card_a__b <> None
+  /\ In [] (split_names (of_ascii "a//b"))
+  /\ card_select (of_ascii "a//b") card_a__b = Raise EKey
+  /\ card_delete (of_ascii "a//b") card_a__b = Raise EKey
+  /\ card_delete_list [of_ascii "a"; []; of_ascii "b"] card_a__b = Raise EKey
+  /\ (match card_select (of_ascii "a") card_a__b with Ok x => section_select (of_ascii "/b") x | Raise e => Raise e end)
+     = Raise EKey
+  /\ (exists d', card_delete (of_ascii "a") card_a__b = Ok d' /\ d' = []).
+Proof. exact select_empty_middle_fixed. Qed.
+Print Assumptions C09_select_empty_middle_fixed.
 
 Theorem C09_split_concat : forall p q, ends_with_backslash p = false ->
   split_names (p ++ slash :: q) = split_names p ++ split_names q.
@@ -151,6 +156,12 @@ Theorem C09_chain_resolution : forall ks d, ks <> [] ->
   else Raise EKey.
 Proof. exact chain_select_spec. Qed.
 Print Assumptions C09_chain_resolution.
+
+(* the static check fails exactly when some key of the chain is empty or has an empty name *)
+Theorem C09_chain_static_check : forall ks, ks <> [] ->
+  (chain_ok ks = false <-> exists k, In k ks /\ (k = [] \/ In [] (split_names k))).
+Proof. exact chain_ok_iff. Qed.
+Print Assumptions C09_chain_static_check.
 
 (* ---- delete -------------------------------------------------------------- *)
 Theorem C09_delete : forall p r d d', wf_dict d -> delete_path p d = Some d' -> lookup (p ++ r) d' = None.
@@ -175,15 +186,28 @@ Print Assumptions C09_delete_order.
 (* string form: split + strip; list form: names verbatim *)
 Theorem C09_delete_string : forall key d,
   card_delete key d =
-  if is_empty key || is_empty (last (split_names key) []) then Raise EKey
-  else match delete_path (split_names key) d with Some d' => Ok d' | None => Raise EKey end.
+  if forallb nonempty (split_names key)
+  then match delete_path (split_names key) d with Some d' => Ok d' | None => Raise EKey end
+  else Raise EKey.
 Proof. exact card_delete_spec. Qed.
 Print Assumptions C09_delete_string.
 
+Theorem C09_select_string : forall key d,
+  card_select key d =
+  if forallb nonempty (split_names key)
+  then match lookup (split_names key) d with Some x => Ok x | None => Raise EKey end
+  else Raise EKey.
+Proof. exact card_select_spec. Qed.
+Print Assumptions C09_select_string.
+
 Theorem C09_delete_list_verbatim : forall names d,
   card_delete_list names d =
-  if is_empty (last names []) then Raise EKey
-  else match delete_path names d with Some d' => Ok d' | None => Raise EKey end.
+  match names with
+  | [] => Raise EKey
+  | _ :: _ => if forallb nonempty names
+              then match delete_path names d with Some d' => Ok d' | None => Raise EKey end
+              else Raise EKey
+  end.
 Proof. exact card_delete_list_spec. Qed.
 Print Assumptions C09_delete_list_verbatim.
 
@@ -194,22 +218,35 @@ Proof. exact delete_list_verbatim_example. Qed.
 Print Assumptions C09_delete_list_verbatim_example.
 
 (* ---- errors -------------------------------------------------------------- *)
-(* select never changes the card; it fails exactly on an empty key, an empty last name or a path that
-   leads nowhere, and then with KeyError.  (An empty name in the MIDDLE is not rejected: C09-F1.) *)
+(* FULL STATEMENT: select never changes the card; select and delete (string and list form) fail exactly when the
+   key is empty, SOME name of the path is empty, or the path leads nowhere -- then with KeyError and an unchanged card. *)
 Theorem C09_errors_pure_select : forall key c,
   fst (run_op (OSelect key) c) = c /\
   (snd (run_op (OSelect key) c) = Failed EKey <->
-     key = [] \/ last (split_names key) [] = [] \/ lookup (split_names key) (data c) = None) /\
+     key = [] \/ In [] (split_names key) \/ lookup (split_names key) (data c) = None) /\
   (forall e, snd (run_op (OSelect key) c) = Failed e -> e = EKey).
 Proof. exact select_errors. Qed.
 Print Assumptions C09_errors_pure_select.
 
+Theorem C09_select_succeeds_iff : forall key c x,
+  snd (run_op (OSelect key) c) = Selected x <->
+  key <> [] /\ ~ In [] (split_names key) /\ lookup (split_names key) (data c) = Some x.
+Proof. exact select_ok. Qed.
+Print Assumptions C09_select_succeeds_iff.
+
 Theorem C09_errors_pure_delete : forall key c,
   (snd (run_op (ODelete key) c) = Failed EKey <->
-     key = [] \/ last (split_names key) [] = [] \/ lookup (split_names key) (data c) = None) /\
+     key = [] \/ In [] (split_names key) \/ lookup (split_names key) (data c) = None) /\
   (forall e, snd (run_op (ODelete key) c) = Failed e -> e = EKey /\ fst (run_op (ODelete key) c) = c).
 Proof. exact delete_errors. Qed.
 Print Assumptions C09_errors_pure_delete.
+
+Theorem C09_errors_pure_delete_list : forall names c,
+  (snd (run_op (ODeleteList names) c) = Failed EKey <->
+     names = [] \/ In [] names \/ lookup names (data c) = None) /\
+  (forall e, snd (run_op (ODeleteList names) c) = Failed e -> e = EKey /\ fst (run_op (ODeleteList names) c) = c).
+Proof. exact delete_list_errors. Qed.
+Print Assumptions C09_errors_pure_delete_list.
 
 Theorem C09_delete_fails_iff_missing : forall p d, delete_path p d = None <-> lookup p d = None.
 Proof. exact delete_none_iff. Qed.
